@@ -4,6 +4,7 @@ quantities.
 """
 
 import numpy as np
+from scipy.optimize import brentq
 from .grid import Grid
 
 
@@ -195,6 +196,40 @@ class Grid3Scales(Grid):
         ) / abs(
             2 * ratioPointsWall * tailLengthOutside - wallThickness * (1 + 2 * smoothing)
         )
+
+    def compactify(
+            self,
+            z: np.ndarray, # pylint: disable=invalid-name
+            pz: np.ndarray, # pylint: disable=invalid-name
+            pp: np.ndarray, # pylint: disable=invalid-name
+            ) -> tuple[np.ndarray, ...]:
+        r"""
+        Transforms coordinates to the [-1, 1] interval (inverse of decompactify).
+        The position mapping of this class has no closed-form inverse, so it is
+        inverted numerically; the momentum mappings are those of Grid.
+        """
+        zArray = np.asarray(z, dtype=float)
+        zCompact = np.empty_like(zArray)
+        # Largest compact coordinate for which the mapping is finite
+        chiMax = np.nextafter(1.0, 0.0)
+        zMin = float(self.decompactify(-chiMax, 0.0, 0.0)[0])
+        zMax = float(self.decompactify(chiMax, 0.0, 0.0)[0])
+        for index in np.ndindex(zArray.shape):
+            target = zArray[index]
+            if target <= zMin:
+                zCompact[index] = -1.0 if np.isinf(target) else -chiMax
+            elif target >= zMax:
+                zCompact[index] = 1.0 if np.isinf(target) else chiMax
+            else:
+                zCompact[index] = brentq(
+                    lambda chi: float(self.decompactify(chi, 0.0, 0.0)[0]) - target,
+                    -chiMax,
+                    chiMax,
+                    xtol=1e-15,
+                    rtol=1e-14,
+                )
+        _, pzCompact, ppCompact = super().compactify(zArray, pz, pp)
+        return zCompact, pzCompact, ppCompact
 
     def decompactify(
             self,
